@@ -213,7 +213,7 @@ func judgeConcCase(c concCase, rec *hx.Rec) string {
 	if bin := os.Getenv("VERIF_WORKER"); bin != "" {
 		checked := 0
 		for i, j := range c.Jobs {
-			if j.Kind != "asm" || checked >= 2 {
+			if j.Kind != "asm" || checked >= 1 {
 				continue
 			}
 			checked++
@@ -229,12 +229,26 @@ func judgeConcCase(c concCase, rec *hx.Rec) string {
 			}
 		}
 	}
-	// repeatability in one thread (map iteration order is randomised per range statement)
+	// repeatability in one thread (map iteration order is randomised per range statement):
+	// every distinct assembly job 25 times, the first battles 5 times
+	seenAsm := map[[2]int]bool{}
+	nBattle := 0
 	for i, j := range c.Jobs {
-		if i >= 3 {
-			break
+		reps := 4
+		if j.Kind == "asm" {
+			k := [2]int{j.Text, j.Cfg}
+			if seenAsm[k] {
+				continue
+			}
+			seenAsm[k] = true
+		} else {
+			nBattle++
+			if nBattle > 2 {
+				continue
+			}
+			reps = 3
 		}
-		for r := 0; r < 10; r++ {
+		for r := 0; r < reps; r++ {
 			if got := do(j); got != want[i] {
 				return fmt.Sprintf("job %d (%+v) is not repeatable: run %d gave\n  %s\nfirst run gave\n  %s", i, j, r, got, want[i])
 			}
@@ -360,11 +374,11 @@ func judgeIsoCase(c isoCase, rec *hx.Rec) string {
 	return ""
 }
 
-const c14Rule = "harness built with -race. Job sets of 4..64 jobs over 1..6 texts (repository warriors, C03/C08 generator output, an EQU cycle): `assemble text` or `battle` (simulator from one shared SimulatorConfig value and shared *WarriorData, spawn, Run, hash of the whole core); the jobs run FIRST on 1/2/8/32 goroutines released by a barrier (so process-wide caches are cold; battles use an 8000-cell and an 800-cell simulator sharing the same warrior data), then sequentially: every concurrent result must equal the sequential one, the first three jobs are repeated 10x (repeatability) (error text excluded), shared WarriorData unchanged, and the race detector silent (any DATA RACE report fails the check). Non-trivial: >= 8 jobs on >= 8 goroutines with a WarriorData shared by two simulators; distinct by case hash."
+const c14Rule = "harness built with -race. Job sets of 4..64 jobs over 1..6 texts (repository warriors, C03/C08 generator output, an EQU cycle): `assemble text` or `battle` (simulator from one shared SimulatorConfig value and shared *WarriorData, spawn, Run, hash of the whole core); the jobs run FIRST on 1/2/8/32 goroutines released by a barrier (so process-wide caches are cold; battles use an 8000-cell and an 800-cell simulator sharing the same warrior data), then sequentially: every concurrent result must equal the sequential one, every distinct assembly job is repeated 4x and the first battles 3x (repeatability; see also sub-property repeat) (error text excluded), shared WarriorData unchanged, and the race detector silent (any DATA RACE report fails the check). Non-trivial: >= 8 jobs on >= 8 goroutines with a WarriorData shared by two simulators; distinct by case hash."
 
 func TestC14_Concurrent(t *testing.T) {
 	hx.Run(t, hx.Prop[concCase]{
-		ID: "C14", Sub: "concurrent", Rule: c14Rule, Checks: hx.Scale(120, 40000),
+		ID: "C14", Sub: "concurrent", Rule: c14Rule, Checks: hx.Scale(80, 40000),
 		Gen: genConcCase, Judge: judgeConcCase,
 	})
 }
@@ -506,5 +520,54 @@ func TestC14_Interleaved(t *testing.T) {
 		ID: "C14", Sub: "interleaved", Checks: hx.Scale(2500, 400000),
 		Rule: "isolation between simulators of one process: 2..3 simulators with the same configuration are used in turns by one thread (spawn, run 1..6 cycles, reset and spawn again, in a generated schedule); after every step every simulator must agree with its own reference model (core, queues, flags, counters), so state recycled or shared between simulators shows. Non-trivial: the schedule contains a reset-and-respawn and a death; distinct by case hash.",
 		Gen:  genIlvCase, Judge: judgeIlvCase,
+	})
+}
+
+
+// ---- the same text under the same configuration always assembles to the same result
+
+type repeatCase struct {
+	Cfg  gen.AsmConfig
+	Text string
+	N    int
+}
+
+func genRepeatCase(t *rapid.T) repeatCase {
+	var c repeatCase
+	c.Cfg = gen.AsmConfig{CoreSize: 8000, Length: 400, Distance: 100, Processes: 64, NOP94: rapid.Bool().Draw(t, "nop94")}
+	if rapid.IntRange(0, 2).Draw(t, "kind") > 0 {
+		// FOR programs: counts over chained EQUs go through the map-based symbol resolution
+		p, _ := gen.ForProgram(t, c.Cfg)
+		c.Text = rc.Render(p, rc.Style{Choices: rapid.SliceOfN(rapid.IntRange(0, 63), 4, 16).Draw(t, "ch")}, forFeatures)
+	} else {
+		c.Text = renderValid(t, c.Cfg)
+	}
+	c.N = rapid.IntRange(5, 9).Draw(t, "n")
+	return c
+}
+
+func judgeRepeatCase(c repeatCase, rec *hx.Rec) string {
+	if c.N < 2 || c.N > 100 {
+		return "malformed case"
+	}
+	cfg := asmG(c.Cfg)
+	first := wdString(gmars.CompileWarrior(strings.NewReader(c.Text), cfg))
+	for r := 1; r < c.N; r++ {
+		if got := wdString(gmars.CompileWarrior(strings.NewReader(c.Text), cfg)); got != first {
+			return fmt.Sprintf("assembly %d of the same text under the same configuration gave\n  %s\nthe first gave\n  %s\nsource:\n%s", r+1, clip(got), clip(first), clip(c.Text))
+		}
+	}
+	if rec != nil {
+		lower := strings.ToLower(c.Text)
+		rec.Case(strings.Contains(lower, "equ") && strings.Contains(lower, "for"), hx.HashJSON(c), func() any { return c })
+	}
+	return ""
+}
+
+func TestC14_Repeat(t *testing.T) {
+	hx.Run(t, hx.Prop[repeatCase]{
+		ID: "C14", Sub: "repeat", Checks: hx.Scale(350, 200000),
+		Rule: "repeatability: one generated text (FOR programs with chained and shared EQUs in their counts two times out of three, C03 programs otherwise) is assembled 5..9 times in one process under one configuration; every result must equal the first (Go randomises map iteration per range statement, so anything that depends on it shows). Non-trivial: the text has an EQU and a FOR; distinct by case hash.",
+		Gen: genRepeatCase, Judge: judgeRepeatCase,
 	})
 }
